@@ -91,7 +91,8 @@ def cases(c):
                     continue
                 k = int(rng.integers(lo, hi + 1))
             out.append({'cls': cls, 'cplx': cplx, 'N': N, 'NFFT': kind, 'fs': gen.pick(rng, [1.0, 2.0, 1000.0, 0.05]),
-                        'k': k, 'params': params, 'amp10': int(gen.pick(rng, [0, 0, 0, -3, -7, 4])), 'i': i, 'directed': i < 4})
+                        'k': k, 'params': params, 'amp10': int(gen.pick(rng, [0, 0, 0, -3, -7, 4])), 'i': i, 'directed': i < 4,
+                        'reuse': ((i // 3) % 4) if i % 3 == 1 else None})
     return out
 
 
@@ -109,7 +110,11 @@ def run_case(c, d):
     feats = {'cls': cls, 'cplx': cplx, 'nfft_odd': bool(NFFT % 2), 'nfft_kind': 'None' if kind is None else
              ('nextpow2' if kind == 'nextpow2' else 'int')}
     try:
-        p = E.build(cls, params, x, NFFT=kind, fs=fs, scale=False)
+        if d.get('reuse') is not None:
+            p = E.build_reused(cls, params, x, NFFT=kind, fs=fs, scale=False, salt=d['reuse'])
+            feats = dict(feats, reused_object=True)
+        else:
+            p = E.build(cls, params, x, NFFT=kind, fs=fs, scale=False)
         psd = np.asarray(p.psd)
         fr = np.asarray(p.frequencies(), dtype=float)
         got_nfft = p.NFFT
